@@ -1381,4 +1381,59 @@ theorem runReader_inv (P : Params) (w : WireOps C) (hl : WireLaws P w) (hc : RCo
       exact ih s (applyEnv c .close) (RInv.congr P s c _ h rfl rfl) outLen hs
         (by simpa [applyEnv, delivered] using hauth) hol
 
+variable {C : Type}
+
+/-! ## Initial states, the term model's integrity, composition -/
+
+theorem RInv_init (P : Params) (w : WireOps C) (hc : RConsts P) (c : RCarrier C) (h0 : c.cpos = 0) :
+    RInv P (newReadSock P w) c := by
+  have := canon_ge P hc
+  have := bufSize_eq P
+  refine ⟨by simp [newReadSock], rfl, Nat.zero_le _, by rw [h0]; exact Nat.zero_le _,
+    fun j hj => absurd hj (Nat.not_lt_zero _), Nat.le_refl _, by simp [newReadSock], Or.inl (Nat.zero_le _), ?_⟩
+  simp only [StInv, newReadSock, Array.size_replicate]
+  refine ⟨by omega, by omega, trivial, Or.inl (Nat.le_refl _)⟩
+
+theorem SInv_init (P : Params) (w : WireOps C) (frames : List Chunk) : SInv frames (newReadSock P w) 0 := by
+  simp [SInv, newReadSock, startOf, plen]
+
+theorem WSInv_init (P : Params) (w : WireOps C) : WSInv P w (newWriteSock P w) ⟨#[], []⟩ [] 0 :=
+  ⟨⟨by simp [newWriteSock], trivial⟩, trivial, rfl, rfl, by simp [wtail, newWriteSock, wireOf]⟩
+
+/-- In the term model every stream whose ciphertext cells all stem from the writer's frames is
+authentic — whatever was cut, moved, repeated or overwritten with other bytes. -/
+theorem Authentic_term (T : Nat) (hT : 1 ≤ T) (frames : List Chunk) (str : List TCell)
+    (h : ∀ n s l i, TCell.ct n s l i ∈ str → frames[n]? = some ⟨s, l⟩) :
+    Authentic (termWire T) frames str := by
+  intro n i len p _ hd
+  have he : (str.drop i).take len = termEnc T n p := (termDec_iff T hT n _ p).1 hd
+  obtain ⟨tl, htl⟩ := termEnc_head T n p hT
+  have hm : TCell.ct n p.start p.len 0 ∈ (str.drop i).take len := by rw [he, htl]; exact List.mem_cons_self ..
+  have := h n p.start p.len 0 (List.mem_of_mem_drop (List.mem_of_mem_take hm))
+  simpa using this
+
+theorem mem_wireOf_term (T n : Nat) (frames : List Chunk) (m s l i : Nat)
+    (h : TCell.ct m s l i ∈ wireOf (termWire T) T n frames) : n ≤ m ∧ frames[m - n]? = some ⟨s, l⟩ := by
+  induction frames generalizing n with
+  | nil => simp [wireOf] at h
+  | cons x xs ih =>
+    simp only [wireOf, frameBytes, List.mem_append, List.mem_cons] at h
+    rcases h with (h | h | h) | h
+    · cases h
+    · cases h
+    · simp only [termWire, termEnc, List.mem_map, List.mem_range] at h
+      obtain ⟨j, _, hj⟩ := h
+      injection hj with a b c d
+      subst a b c
+      simp
+    · obtain ⟨a, b⟩ := ih (n + 1) h
+      refine ⟨by omega, ?_⟩
+      have : m - n = (m - (n + 1)) + 1 := by omega
+      rw [this]; simpa using b
+
+/-- The honest wire is authentic in the term model. -/
+theorem Authentic_term_honest (T : Nat) (hT : 1 ≤ T) (frames : List Chunk) :
+    Authentic (termWire T) frames (wireOf (termWire T) T 0 frames) :=
+  Authentic_term T hT frames _ (fun n s l i h => by simpa using (mem_wireOf_term T 0 frames n s l i h).2)
+
 end Litep2pVerif.Noise.Transport
